@@ -139,23 +139,29 @@ class Reduce1D(Subspace):
 class Reduce2D(Subspace):
     shard = 20
 
-    def __init__(self, name, shape, seed=0):
-        self.name, self.shape, self.seed = name, shape, seed
-        self.ws = W.WordSpace([0, 1], shape[0] * shape[1], shape[0] * shape[1])
+    def __init__(self, name, shape, seed=0, dtype="f8"):
+        self.name, self.shape, self.seed, self.dtype = name, shape, seed, dtype
+        if C.can_null(dtype):
+            self.ws = W.WordSpace([0, 1], shape[0] * shape[1], shape[0] * shape[1])
+        else:
+            self.ws = None  # integers: no null patterns, every rotation of the value table instead
         self.warm_key = "r2"
 
     def size(self):
-        return len(self.ws)
+        return len(self.ws) if self.ws is not None else 12
 
     def case(self, i):
-        return dict(xs=self.ws.at(i), shape=list(self.shape), seed=self.seed)
+        if self.ws is None:
+            return dict(xs=[1] * (self.shape[0] * self.shape[1]), shape=list(self.shape),
+                        seed=self.seed + i, dtype=self.dtype)
+        return dict(xs=self.ws.at(i), shape=list(self.shape), seed=self.seed, dtype=self.dtype)
 
     def run(self, case):
         from groupby_lib import nanops as no
 
         res = Result()
         r, c = case["shape"]
-        arr, _ = C.make_values(case["xs"], "f8", case["seed"])
+        arr, _ = C.make_values(case["xs"], case.get("dtype", "f8"), case["seed"])
         arr = arr.reshape(r, c)
         res.nontrivial = True
         seams = env.seams()
@@ -385,6 +391,9 @@ def subspaces(tier, seed):
         sp.append(Reduce1D(f"reducers-{dt}-len1to{L-2}", 1, L - 2, dt, seed=seed))
     for shape in ((2, 2), (2, 3), (3, 2)) + (() if q else ((3, 3), (1, 4), (4, 1))):
         sp.append(Reduce2D(f"reducers-2d-{shape[0]}x{shape[1]}", shape, seed=seed))
+    for dt in ("i1", "i4", "u1", "i8", "f4"):
+        for shape in ((2, 2), (3, 2), (2, 3)):
+            sp.append(Reduce2D(f"reducers-2d-{dt}-{shape[0]}x{shape[1]}", shape, seed=seed, dtype=dt))
     for r, c in ((1, 1), (2, 1), (1, 2), (2, 2), (3, 2)) + (() if q else ((2, 3), (3, 3))):
         sp.append(DotSpace(f"nb_dot-{r}x{c}", r, c))
     for r in (1, 2, 3, 4):
